@@ -170,6 +170,13 @@ def ini_rules(ck, fn):
     F = ck.facts
     g = Graph(fn)
     reads = settings_reads(fn)
+    # every QSettings::value() call of the configuration unit must be one of the recognised reads; otherwise the keys are read
+    # through something the rule does not follow (an accessor object, a template) and "key never read" would be a guess
+    seen_sites = {(r["node"].get("l"), r["node"].get("c")) for r in reads.values()}
+    all_sites = {(n.get("l"), n.get("c")) for f_ in F.fns.values() if (f_.file or "") == (fn.file or "") and f_.body is not None for n in f_.calls("QSettings::value")}
+    stray = sorted(all_sites - seen_sites)
+    if stray:
+        raise AnalysisBroken("settings are read at %d site(s) the rule does not follow (e.g. line %s): through an accessor object or a helper that is not spliced" % (len(stray), stray[0][0]))
     docs = doc_ini_tables()
     ck.require(docs is not None and len(docs) >= 15, "INI Settings Reference tables not found in docs/configuration.md")
     CONV = {"toString": "string", "toBool": "bool", "toInt": "int"}
